@@ -45,6 +45,7 @@ fn main() {
             }
         }
         Some("asstr") => asstr(&args[1..]),
+        Some("report") => report_mode(&args[1..]),
         Some("jobs") => jobs(&args[1..]),
         _ => {
             eprintln!("usage: c19 jobs … | c19 interner <jitter>");
@@ -219,4 +220,125 @@ fn asstr(args: &[String]) {
         }
     }
     println!("\n@@ASSTR\t{c}\t{s}\t{f}");
+}
+
+/// Rendered diagnostics: K threads compile DIFFERENT ill-typed in-memory programs at the same time and print their
+/// diagnostics with `utils::error::report`, all under the same nominal path (programs without a file; mimium-web uses "/").
+/// `report` writes to fd 2, which is pointed at a scratch file meanwhile. Every diagnostic block printed concurrently must be
+/// byte-identical to one the same job prints alone (blocks are attributed to jobs by the undefined variable they name).
+/// usage: c19 report K ROUNDS SCRATCHFILE  ->  `@@REPORT \t blocks \t bad \t lost \t first-bad (escaped) \t alone (escaped)`
+fn report_mode(args: &[String]) {
+    use std::io::{Read, Seek, SeekFrom, Write};
+    use std::os::fd::AsRawFd;
+    let k: usize = args.first().and_then(|s| s.parse().ok()).unwrap_or(4);
+    let rounds: usize = args.get(1).and_then(|s| s.parse().ok()).unwrap_or(50);
+    let scratch = args.get(2).cloned().unwrap_or_else(|| format!("/tmp/c19_report_{}.txt", std::process::id()));
+    let tag = |i: usize| format!("job{i}x");
+    let source = |i: usize| {
+        let t = tag(i);
+        let pad = "// padding line\n".repeat(i * 3 % 11);
+        format!("{pad}fn dsp(){{\n    let {t}_local = 1.0 + {t}_missing_one\n    {t}_local * {t}_missing_two\n}}\n")
+    };
+    fn job(src: &str) {
+        let mut ctx = mimium_lang::ExecContext::new([].into_iter(), None, mimium_lang::Config::default());
+        ctx.prepare_compiler();
+        if let Err(errs) = ctx.get_compiler().unwrap().emit_mir(src) {
+            mimium_lang::utils::error::report(src, std::path::PathBuf::from("/"), &errs);
+        }
+    }
+    fn strip_ansi(s: &str) -> String {
+        let mut out = String::new();
+        let mut it = s.chars().peekable();
+        while let Some(c) = it.next() {
+            if c == '\u{1b}' && it.peek() == Some(&'[') {
+                for d in it.by_ref() {
+                    if d.is_ascii_alphabetic() {
+                        break;
+                    }
+                }
+            } else {
+                out.push(c);
+            }
+        }
+        out
+    }
+    fn blocks(text: &str) -> Vec<String> {
+        let mut res: Vec<String> = vec![];
+        for line in strip_ansi(text).lines() {
+            if line.starts_with("Error:") || res.is_empty() {
+                res.push(String::new());
+            }
+            let cur = res.last_mut().unwrap();
+            cur.push_str(line.trim_end());
+            cur.push('\n');
+        }
+        res.into_iter().filter(|b| b.starts_with("Error:")).collect()
+    }
+    let capture = |f: &mut dyn FnMut()| -> String {
+        let mut file = std::fs::OpenOptions::new().create(true).truncate(true).read(true).write(true).open(&scratch).unwrap();
+        let _ = std::io::stderr().flush();
+        let saved = unsafe { libc::dup(2) };
+        unsafe { libc::dup2(file.as_raw_fd(), 2) };
+        f();
+        let _ = std::io::stderr().flush();
+        unsafe {
+            libc::dup2(saved, 2);
+            libc::close(saved);
+        }
+        let mut text = String::new();
+        let _ = file.seek(SeekFrom::Start(0));
+        let _ = file.read_to_string(&mut text);
+        let _ = std::fs::remove_file(&scratch);
+        text
+    };
+    let sources: Vec<String> = (0..k).map(source).collect();
+    let mut alone: Vec<Vec<String>> = vec![];
+    for s in &sources {
+        let t = capture(&mut || job(s));
+        alone.push(blocks(&t));
+    }
+    let barrier = std::sync::Arc::new(std::sync::Barrier::new(k));
+    let text = capture(&mut || {
+        let hs: Vec<_> = (0..k)
+            .map(|i| {
+                let (src, b) = (sources[i].clone(), barrier.clone());
+                std::thread::spawn(move || {
+                    b.wait();
+                    for _ in 0..rounds {
+                        job(&src);
+                    }
+                })
+            })
+            .collect();
+        for h in hs {
+            let _ = h.join();
+        }
+    });
+    let bs = blocks(&text);
+    let owner = |b: &str| (0..k).rev().find(|&i| b.lines().next().unwrap_or("").contains(&tag(i)));
+    let mut per = vec![0usize; k];
+    let (mut bad, mut first, mut first_alone) = (0usize, String::new(), String::new());
+    for b in &bs {
+        match owner(b) {
+            Some(i) => {
+                per[i] += 1;
+                if !alone[i].contains(b) {
+                    bad += 1;
+                    if first.is_empty() {
+                        first = b.clone();
+                        first_alone = alone[i].join("");
+                    }
+                }
+            }
+            None => {
+                bad += 1;
+                if first.is_empty() {
+                    first = b.clone();
+                }
+            }
+        }
+    }
+    let lost: usize = (0..k).map(|i| (alone[i].len() * rounds).abs_diff(per[i])).sum();
+    let esc = |s: &str| s.replace('\\', "\\\\").replace('\n', "\\n").replace('\t', " ");
+    println!("\n@@REPORT\t{}\t{bad}\t{lost}\t{}\t{}\t{}", bs.len(), esc(&first), esc(&first_alone), alone.iter().map(|a| a.len()).sum::<usize>());
 }
